@@ -43,6 +43,28 @@ def _paths(c):
     for fmt in ("csr", "csc", "coo", "lil", "dok"):
         paths[fmt] = lambda fmt=fmt: finish(Network(adjacency=getattr(sp, fmt + "_matrix")(A), directed=directed,
                                                     node_weights=w.copy(), silence_level=3))
+
+    def with_zeros(fmt):
+        """The same matrix with every absent off-diagonal link stored explicitly as a zero entry."""
+        rows, cols = np.nonzero(~np.eye(n, dtype=bool))
+        m = sp.coo_matrix((A[rows, cols], (rows, cols)), shape=(n, n))
+        return m if fmt == "coo" else getattr(m, "to" + fmt)()
+
+    for fmt in ("csr", "csc", "coo"):
+        paths[fmt + "_zeros"] = lambda fmt=fmt: finish(Network(adjacency=with_zeros(fmt), directed=directed,
+                                                               node_weights=w.copy(), silence_level=3))
+
+    def copy_then_edit():
+        """A copy is an independent network: rescaling the copy's weights and rewiring it leaves the original alone."""
+        net = base()
+        cp = net.copy()
+        wc = cp.node_weights
+        wc *= 2
+        cp.node_weights = wc
+        cp.adjacency = 1 - A - np.eye(n, dtype=A.dtype)
+        return net
+
+    paths["copy_then_edit"] = copy_then_edit
     paths["edge_list_n"] = lambda: finish(Network(edge_list=edges(), n_nodes=n, directed=directed,
                                                   node_weights=w.copy(), silence_level=3))
     # without n_nodes the node count is inferred from the largest index: only for graphs whose
